@@ -360,7 +360,8 @@ def compare_obj(w, oid, exp, real, adopt):
             diffs.append('series-values')
         if not rs['readback']:
             diffs.append('read-paths')
-    if list(exp['attrs']) != real['attrs']:
+    # (private bookkeeping attributes the specification does not know - a cache, say - are the implementation's own business)
+    if list(exp['attrs']) != [a for a in real['attrs'] if not (a.startswith('_') and a not in exp['attrs'])]:
         diffs.append('attrs')
     if bool(exp['strict']) != bool(real['strict']):
         diffs.append('strict')
@@ -718,9 +719,15 @@ def replay_history(rec, variant, identity, stats):
                 src_ids = sorted(p for p in prev_real if w.root_of[p] == w.root_of[target])
                 for a, b in zip(src_ids, sorted(o for o in w.objs if o not in prev_real)):
                     w.anc[b] = w.anc.get(a, a)
-        real = {oid: project(w, oid) for oid in sorted(w.objs)}
-        real_cls = class_lists(w)
-        ex = {oid: extras(w, oid) for oid in w.objs}
+        try:
+            real = {oid: project(w, oid) for oid in sorted(w.objs)}
+            real_cls = class_lists(w)
+            ex = {oid: extras(w, oid) for oid in w.objs}
+        except Setup:
+            raise
+        except Exception as e:     # the objects cannot even be read any more: the operation damaged them
+            out.append({'key': f'{op_feat(op, pre)}-leaves-unreadable-object-{type(e).__name__}', 'step': k, 'detail': str(e)[:300]})
+            return out
         outc = st['out']
         mism = []
         # ---- frame / equality of everything the spec describes
